@@ -70,18 +70,21 @@ def decConsts (xs : List Sexp) : Option Consts :=
 
 def handle : Sexp → Option Sexp
   -- a text: character-level model, and the token-level machine on the model's own tokenization
-  | .list [.atom "c15.type", t] => do
+  -- `strict` = 1: the implementation contains the repair of C15-F4 (probed by the harness)
+  | .list [.atom "c15.type", strict, t] => do
+      let st := (← strict.nat?) != 0
       let s := (← t.string?).toList
-      let viaToks : Res TyO := match tokenize (s.length + 1) s with
+      let viaToks : Res TyO := match tokenize st (s.length + 1) s with
         | .error e => .error e
-        | .ok ts => autoTypeToks ts
-      pure (.list [encRes encTy (autoTypeText s), encRes encTy viaToks])
+        | .ok ts => autoTypeToks st ts
+      pure (.list [encRes encTy (autoTypeText st s), encRes encTy viaToks])
   -- an expression of the notation with a spacing: rendered text, ⟦e⟧, wf, parser on toks e
-  | .list [.atom "c15.expr", e, .list sp] => do
+  | .list [.atom "c15.expr", strict, e, .list sp] => do
+      let st := (← strict.nat?) != 0
       let e ← decExpr e
       let sp ← allSome Sexp.nat? sp
       let spf : Spacing := fun k => sp.getD k 0
-      pure (.list [sstr (render spf e), encTy e.denote, ofBool e.wf, encRes encTy (autoTypeToks e.toks)])
+      pure (.list [sstr (render spf e), encTy e.denote, ofBool e.wf, encRes encTy (autoTypeToks st e.toks)])
   | .list [.atom "c15.parse", .list dsl, tr, .list consts, chk, text] => do
       let dsl ← decDsl dsl
       let tr ← decTy tr
